@@ -48,6 +48,7 @@ theorem localStep_cancel {k : EvoKernels 𝕜 ℝ} {L R : T3 𝕜} {W : T4 𝕜}
   rw [length_flat3] at hzl hzv
   refine ⟨rfl, rfl, rfl, ?_⟩
   intro s a b hs ha hb
+  show (unflat3 z A.d0 A.d1 A.d2).tab.f s a b = _
   rw [Env.t3_tab_f (A := unflat3 z A.d0 A.d1 A.d2) hs ha hb, unflat3_f, hzv _ (idx3_lt hs ha hb), vget_flat3 A hs ha hb]
 
 end Ptn.Evo
